@@ -706,7 +706,7 @@ func TestVP_C22_BurstWriter(t *testing.T) {
 	capacity := procs * 2048
 	sizes := []int{1, 64, capacity - 96, capacity + capacity/2 - 144}
 	if vpThorough() {
-		sizes = append(sizes, 10000, 20000)
+		sizes = append(sizes, 10000) // ~100 KiB of encoder state per live call: keep the peak near 1 GiB
 	}
 	rapid.Check(t, func(t *rapid.T) {
 		pool := vpC22Pool(t, 48, 300, vpScale(1000, 2000))
